@@ -256,6 +256,26 @@ Theorem fp_from_rows_prefix_safe : forall es C st n m ragged,
   Forall (Safe (ext_dense es st n) balign_dense) (fp_from_rows_accs es C st n m ragged).
 Proof. exact FpProofs.fp_from_rows_safe. Qed.
 
+(* every row the (repaired) from_rows exposes was written, whatever the iterator claims about its length *)
+Theorem fp_from_rows_exposes_written_rows : forall es C st n m r,
+  0 <= r < from_rows_rows true n m ->
+  In (wr B_DST (r * st * es) (C * es) es) (fp_from_rows_accs es C st n m (-1)).
+Proof.
+  intros es C st n m r Hr. unfold from_rows_rows in Hr. unfold fp_from_rows_accs.
+  replace ((0 <=? -1) && (-1 <? Z.min n m)) with false by reflexivity.
+  apply in_map_iff. exists r. split; [reflexivity | apply In_zrange; lia].
+Qed.
+
+(* observation O1: before the repair an iterator whose len() is 4 and which yields 1 row gave a matrix of 4
+   rows of which row 1 was never written *)
+Theorem fp_from_rows_old_refuted :
+  exists n m r, 0 <= r < from_rows_rows false n m /\
+    ~ In (wr B_DST (r * 8 * 4) (5 * 4) 4) (fp_from_rows_accs 4 5 8 n m (-1)).
+Proof.
+  exists 4, 1, 1. split; [vm_compute; split; [discriminate | reflexivity]|].
+  vm_compute. intros [H|[]]. discriminate H.
+Qed.
+
 Theorem fp_ravel_fill_safe : forall es st rows,
   0 < es -> (es | 32) -> 0 <= rows -> 0 <= st ->
   Forall (Safe (ext_dense es st rows) balign_dense) (fp_ravel es st rows) /\
